@@ -20,6 +20,26 @@ Observability for the mechanism behind the symptom (same property, own labels):
   singletons keyed by name, so a name collision replaces the second collection at construction time - then
   "together" and "alone" agree trivially although one collection's result has replaced the other's.
 
+Pandas inputs that are unequal but similar (c13_inputs.PANDAS_SIMILAR, about a third of the member stream): categoricals with
+identical codes over permuted categories / the same labels over permuted categories / ordered vs unordered / labels as object or
+str / an unused category — as a column, a Series or a CategoricalIndex; the same numbers under numpy and nullable dtypes (with a
+missing element: NA / NaN / None, NA masked after holding a value); the same strings as object / str / string / categorical; the
+same values under other index / columns / Series names; MultiIndex level order, names, unused level entries, level dtype (rows or
+columns); the same wall clock times naive / in UTC / in other zones, the same instants shown in another zone, other units; the same
+name -> data mapping in another column order.  They go through `dd.from_pandas` (plus programs that look at them: dtypes and
+labels per partition, groupby / sort / drop_duplicates / value_counts on the column), `dask.delayed(pure=True)` arguments (frame,
+column array, index, dtype object, inside a dict), `db.from_sequence([frame, 0])` and `da.from_array` (the Series / Index itself
+where from_array takes it).  Half of the members come from the 3-4 closest variants of the family.
+
+Sibling programs (family `siblings`, vf/gen/c13_siblings.py): the SAME input, ONE result-relevant parameter changed - 355
+(operation, parameter) entries over the array, dataframe, bag and delayed APIs, 2-6 values each.  Every unordered pair of values of
+every entry is a case of every run (complete sub-space), followed by seeded cases with 2-3 values and other input seeds.  Same
+oracle as above (alone in isolation, together in both orders, optimize_graph on/off, shared keys, built next to each other), plus
+one graph through a combining operation where natural: `da.concatenate` of the flattened arrays (same dtype), `dd.concat` (same
+columns / dtypes), `db.concat`, `dask.delayed([a, b])`; each member's part of the combined result must equal its stand-alone
+value (`combined-vs-alone:...`).  Parameters that only change the block structure are also observed through programs that turn the
+structure into values (`*-block-shapes`, `*-partition-lengths`).  Labels `<facet>:<api>:siblings:<operation>:<parameter>:...`.
+
 Input families with an already known mechanism are separately labelled and a small fraction of the stream:
 `strings-resplit-at-hyphen` / `pandas-strings-resplit-at-hyphen` (DESIGN §6 #6/#7: object arrays tokenised through
 "-".join) and `memmap-same-file` (np.memmap token ignores dtype and shape).
@@ -32,6 +52,22 @@ Calibration
   are reported.
 * Results that cannot be compared with == (da.full_like(x, None) computes to toolz.curry objects whose == raises) are counted
   (`uncomparable_results`), never judged (thorough seed 0 gave two such alarms: the comparator raised, not dask).
+* Sibling programs: `dataframe.shuffle.method` is set to "tasks".  The partd ("disk") shuffle dask picks for the sync scheduler
+  returns the rows of an output partition in an order that changes between two computations of the SAME collection alone
+  (shuffle / set_index / merge / groupby-apply results equal as row multisets, not as frames), so the statement has no reference
+  value there; the tasks shuffle is deterministic.  Sorts are made on a unique column (ties have no defined order).
+* `DatetimeIndex.freq` is not part of a value: `date_range(..).tz_localize("Europe/London")` (freq lost) and
+  `.tz_localize("UTC").tz_convert("Europe/London")` (freq kept) are the same instants in winter, have the same token, and the
+  result shows the freq of whichever was built first; frames / series are compared with check_freq=False.
+* One-shot iterators / generators under intermediate bag keys (`file_to_blocks-*`) cannot be compared without consuming them:
+  counted as `uncomparable_results`.
+* A member whose graph cannot be materialised un-optimised (`sort_values` on an object column of ints: meta inference of `min`
+  fails in `__dask_graph__()` although both computes work) skips the shared-key facet (`graph_not_materialisable`); all result
+  comparisons have been made by then.
+* `dd.from_pandas(frame with a CategoricalIndex whose categories are not in lexical order, npartitions >= 3)` does not return
+  (`sorted_division_locations`, findings_proposed/C13.md): frames with a CategoricalIndex are cut into one partition.
+* map_blocks functions declare the dtype they really return (a wrong `dtype=` makes `da.concatenate` cast the blocks, which is
+  not a collision); `map_overlap(trim=False)` (chunks metadata no longer describe the blocks) is not generated.
 * Equal values with another dtype are different results (the statement says "the same value"; dtype and element types
   are part of the comparison discipline of every collection kind), -0.0 == 0.0 and NaN == NaN are equal.
 """
@@ -55,7 +91,11 @@ RULE = ("cases = (input family, member list); member 0 = (kind, variant, program
         "every further member differs from member 0 in exactly one of them (or in nothing). Families: layout, shape, dtype, "
         "one-element, strings-resplit, object-elements, masked, index-or-columns, pandas-strings-resplit, python-sequences, "
         "and - separately labelled, small - strings-resplit-at-hyphen, pandas-strings-resplit-at-hyphen, memmap-same-file, "
-        "column-data-permuted. "
+        "column-data-permuted; pandas similar inputs: categorical, nullable-vs-numpy, object-vs-str, axis-names, multiindex, "
+        "timezones, column-order (half of their members from the 3-4 closest variants). "
+        "Family 'siblings': (operation, parameter) of vf.gen.c13_siblings.OPS, members = 2-3 values of that one parameter over "
+        "the same input; every unordered value pair of every operation is enumerated in every run, then seeded cases; members "
+        "are also computed through one combining operation (concatenate / concat / delayed list). "
         "Each case: every member built and computed alone (isolated), then all built together and computed alone and "
         "together in both orders with optimize_graph True/False. non-trivial = at least two members are unequal but "
         "near-identical; distinct = distinct case description.")
@@ -63,26 +103,57 @@ ASSUMPTIONS = ["sync scheduler", "a collection built and computed while no other
                "pyarrow stand-in (pandas-backed dataframes, convert-string off)"]
 BUDGET = {"quick": 100, "thorough": 560}
 FLOORS = {
-    "quick": {"evaluations": 900, "distinct_nontrivial": 680,
-              "counters": {"together_computes": 3500, "results_compared": 9700, "built_alone": 2400,
-                           "alone_vs_isolated_compared": 2400, "shared_keys_compared": 3600},
+    # measured (quick, seed 0): 4109 cases, 3333 distinct non-trivial, built_alone 9936, together_computes 15820, results_compared
+    # 39744, shared_keys_compared 17733, combined_computes 1194 / combined_results_compared 2470, sibling_cases 1509 (array 565,
+    # dataframe 594, bag 222, delayed 128; 1339 with different stand-alone values), 355 sibling operations, pandas_similar_cases 781
+    # (620 with different variants; categorical 216, nullable 122, timezones 118, object-vs-str 103, column-order 90, axis-names 84,
+    # multiindex 48)
+    "quick": {"evaluations": 1850, "distinct_nontrivial": 1500,
+              "counters": {"together_computes": 7000, "results_compared": 17500, "built_alone": 4400,
+                           "alone_vs_isolated_compared": 4400, "shared_keys_compared": 7900,
+                           "sibling_cases": 680, "sibling_cases:array": 250, "sibling_cases:dataframe": 265, "sibling_cases:bag": 100,
+                           "sibling_cases:delayed": 55, "sibling_cases_with_different_values": 600,
+                           "sibling_cases_with_different_values:array": 230, "sibling_cases_with_different_values:dataframe": 235,
+                           "sibling_cases_with_different_values:bag": 85, "sibling_cases_with_different_values:delayed": 48,
+                           "combined_computes": 530, "combined_results_compared": 1100,
+                           "pandas_similar_cases": 350, "pandas_similar_cases_with_different_variants": 280,
+                           "pandas_similar:categorical": 95, "pandas_similar:nullable-vs-numpy": 55, "pandas_similar:object-vs-str": 45,
+                           "pandas_similar:axis-names": 38, "pandas_similar:multiindex": 20, "pandas_similar:timezones": 50,
+                           "pandas_similar:column-order": 40},
+              "sets": {"sibling_operations": 320},
               "max_skipped_fraction": 0.15},
-    "thorough": {"evaluations": 9000, "distinct_nontrivial": 6500,
-                 "counters": {"together_computes": 34000, "results_compared": 95000, "built_alone": 24000,
-                              "alone_vs_isolated_compared": 24000, "shared_keys_compared": 35000},
+    "thorough": {"evaluations": 17000, "distinct_nontrivial": 13000,
+                 "counters": {"together_computes": 65000, "results_compared": 160000, "built_alone": 40000,
+                              "alone_vs_isolated_compared": 40000, "shared_keys_compared": 70000,
+                              "sibling_cases": 4500, "sibling_cases:array": 1650, "sibling_cases:dataframe": 1800, "sibling_cases:bag": 650,
+                              "sibling_cases:delayed": 330, "sibling_cases_with_different_values": 3900,
+                              "sibling_cases_with_different_values:array": 1450, "sibling_cases_with_different_values:dataframe": 1550,
+                              "sibling_cases_with_different_values:bag": 550, "sibling_cases_with_different_values:delayed": 270,
+                              "combined_computes": 3500, "combined_results_compared": 8000,
+                              "pandas_similar_cases": 3400, "pandas_similar_cases_with_different_variants": 2700,
+                              "pandas_similar:categorical": 900, "pandas_similar:nullable-vs-numpy": 520, "pandas_similar:object-vs-str": 430,
+                              "pandas_similar:axis-names": 360, "pandas_similar:multiindex": 190, "pandas_similar:timezones": 480,
+                              "pandas_similar:column-order": 380},
+                 "sets": {"sibling_operations": 320},
                  "max_skipped_fraction": 0.15},
 }
 EXHAUSTIVE_SPACE = "sibling programs: every operation of vf.gen.c13_siblings.OPS x every unordered pair of its parameter values (one input seed)"
-CLAIM = ("Every generated tuple of near-identical collections was computed by the real dask.compute together (both orders, "
+CLAIM = ("Every generated tuple of near-identical collections (similar inputs, or the same input under sibling parameters of one operation) was computed by the real dask.compute together (both orders, "
          "optimize_graph on/off) and each member alone; results were compared with the comparison discipline of the collection "
          "kind, shared graph keys were evaluated in each member's graph, and each member was also built in isolation; held = no "
          "difference on the executions observed.")
 LEVEL_NOTE = "the collection computed alone (and built in isolation) is the reference; NumPy/pandas are used only to compare results"
-TECHNIQUE = "runtime monitoring: together-vs-alone differential oracle over near-identical generated inputs + shared-key evaluation"
+TECHNIQUE = ("runtime monitoring: together-vs-alone differential oracle over near-identical generated inputs and over sibling programs "
+             "(same input, one parameter changed) + shared-key evaluation + one-graph combination")
 CASE_TIMEOUT = 120
 
 FAMILY_LABEL = {"pandas-strings-resplit-at-hyphen": "strings-resplit-at-hyphen", "pandas-strings-resplit": "strings-resplit"}
 PENDING = {}
+# Second round (sibling programs), genuine on the pinned tree and delivered as fix patches (findings_proposed/C13.md):
+#   together-vs-alone:bag:siblings:read_text:files_per_partition:result-differs
+#       -> fixes_ready/C13_01_read_text_files_per_partition_lazy_partitions.patch (partitions were one-shot iterators under shared keys)
+#   together-vs-alone:array:siblings:reshape:merge_chunks:result-differs, together:array:siblings:reshape:merge_chunks:ValueError@local.py:start_state_from_dask
+#       -> fixes_ready/SIB_01_reshape_merge_chunks_false_shares_keys.patch (same name, other chunks)
 # Found by this check on the pinned tree and repaired since in dask/tokenize.py (findings_proposed/C13.md): hyphen re-split object
 # strings, np.memmap tokens without dtype/shape, C/F layout collision reaching delayed arguments, DataFrame tokens without block
 # placement.  Their input families stay in the stream as a small, separately labelled fraction.
@@ -492,6 +563,8 @@ def build(member, variants, idx, fam=None):
     if kind == "dataframe":
         pdf = _to_pandas(v)
         nparts = (1, 2, 3, 2)[member["chunks"]]
+        if fam == "categorical" and type(pdf.index).__name__ == "CategoricalIndex":
+            nparts = 1      # Calibration: from_pandas does not return for some CategoricalIndex inputs cut into >= 3 partitions
         x = dd.from_pandas(pdf, npartitions=nparts, sort=True)
         if prog == "id":
             return x
@@ -618,9 +691,9 @@ def _differs(a, b):
             return "type", "%s vs %s" % (type(a).__name__, type(b).__name__)
         try:
             if isinstance(a, pd.DataFrame):
-                pd.testing.assert_frame_equal(a, b, check_exact=True)
+                pd.testing.assert_frame_equal(a, b, check_exact=True, check_freq=False)
             elif isinstance(a, pd.Series):
-                pd.testing.assert_series_equal(a, b, check_exact=True)
+                pd.testing.assert_series_equal(a, b, check_exact=True, check_freq=False)
             else:
                 pd.testing.assert_index_equal(a, b, exact=True)
         except AssertionError as ex:
@@ -956,8 +1029,8 @@ def _shared_keys(ctx, cols, kinds, fam, tags, reported):
 
     try:
         graphs = [_graph(c) for c in cols]
-    except Exception as ex:  # noqa: BLE001
-        ctx.exception(ex, prefix="materialise:%s" % fam)
+    except Exception:  # noqa: BLE001  Calibration: every member computed (optimised and not); this facet only names a mechanism
+        ctx.count("graph_not_materialisable")
         return
     for i in range(len(cols)):
         for j in range(i + 1, len(cols)):
